@@ -117,7 +117,7 @@ def run(prop, tier, seed, replay=None):
             todo_files = []
             if prop == 'C08':
                 # "every grammar produced" includes the files: counts as a reader of the written grammar sees them
-                nf = 150 if tier == 'quick' else 1500
+                nf = 150 if tier == 'quick' else 600
                 for k in range(nf):
                     Ts = [rnd.choice(trees) for _ in range(rnd.randint(2, 3))]
                     if k % 3 == 0:
@@ -175,6 +175,9 @@ def run(prop, tier, seed, replay=None):
                 todo_tb.append(('R-%05d' % k, Ts, modes, None, seed + k, 'random'))
             cases = core.pmap(fg.record_treebank_case, todo_tb) + core.pmap(fg.record_rule_case, todo_rule) \
                 + core.pmap(fg.record_files_case, todo_files, chunksize=8)
+        if not replay:
+            for c in cases:
+                c['props'] = [prop]
         byid = {c['id']: c for c in cases}
         verdicts, wall = core.validate_traces(w, 'Trace_Grammar', cases, cfg=TRACE_CFG, chunk=400)
         rep.extra['trace_validation_wall_s'] = round(wall, 1)
